@@ -115,6 +115,19 @@ def case_term(filename, text, entries, conv, obs):
     return "(%s,\n %s,\n %s,\n %s,\n %s)" % (fs_term(entries), zs(filename), zs(text), exp, obs)
 
 
+def build_run_files():
+    """translate + make just the .vo files the cases need (C.build with no Props file would make `all`, which fails
+    whenever another agent's proof is broken in the shared tree)"""
+    import subprocess
+    import translate
+    with C.Lock():
+        translate.run(verbose=False)
+        C._ensure_makefile()
+        p = subprocess.run(["make", "-f", "Makefile.coq", f"-j{C.NPROC}", "Run/PARun.vo", "Run/RRun.vo"], cwd=C.COQ,
+                           stdout=subprocess.PIPE, stderr=subprocess.STDOUT, text=True, timeout=1500)
+    return p.returncode == 0, p.stdout[-800:]
+
+
 def explain(code):
     out = []
     if code & 1:
@@ -214,9 +227,9 @@ def explore_pa(rep, tier, seed, only=None):
                 break
             except RuntimeError as ex:
                 # another agent rebuilt a library under us (shared coq/ tree): rebuild ours and try again
-                if "inconsistent assumptions" not in str(ex) or attempt == 2:
+                if "inconsistent assumptions" not in str(ex) or attempt == 2 or os.path.realpath(C.REPO) != "/repo":
                     raise
-                C.build([], ["Run/PARun.v"])
+                build_run_files()
         for ix, r in zip(index, res):
             for k, v in zip(ix, r):
                 codes[k] = v
@@ -262,10 +275,12 @@ def main():
     ap.add_argument("--only", default=None)
     a = ap.parse_args()
     rep = C.Report("PA", a.tier, a.seed)
-    br = C.build([], ["Run/PARun.v"])
-    if not br.make_ok:
-        print("build failed:", br.make_failed, br.make_log[-800:])
-        return 2
+    if os.path.realpath(C.REPO) == "/repo":
+        # (never with another VERIF_REPO: the translator would rewrite the shared coq/Gen from that checkout)
+        ok, log = build_run_files()
+        if not ok:
+            print("build failed:", log)
+            return 2
     st = explore_pa(rep, a.tier, a.seed, only=a.only)
     for d in rep.disagreements[:20]:
         print("DISAGREE", d["what"], repr(d["input"])[:300], "|", d.get("model"), "|", d.get("impl"))
